@@ -473,6 +473,36 @@ def ob_templates(nargs):
     return h
 
 
+def ob_link_arg_sources():
+    """project, global and option link arguments as the link command of EVERY target receives them: the real Compiler.get_build_link_args with the real
+    Build.get_project_link_args / get_global_link_args over lists of symbolic strings, called for 2-3 targets one after the other (a link line per target):
+    each call returns project + global + option arguments - same strings, same count, same order - and the stored lists are what they were"""
+    def h():
+        import types
+        from mesonbuild import build as B
+        from mesonbuild.compilers.compilers import Compiler
+        from mesonbuild.mesonlib import MachineChoice
+        mk = lambda tag: [sym_str(1, '%s%d' % (tag, i), alphabet="a $'") for i in range(choose(3, 'n' + tag))]
+        proj, glob_, ext = mk('p'), mk('g'), mk('e')
+        proj_given = choose(2, 'add_project_link_arguments called') == 1 or bool(proj)
+        bld = object.__new__(B.Build)
+        bld.global_link_args = B.PerMachine({}, {}); bld.global_link_args[MachineChoice.HOST] = {'c': glob_}
+        bp = types.SimpleNamespace(orig_for_machine=MachineChoice.HOST, project_link_args=B.PerMachine({}, {}))
+        if proj_given: bp.project_link_args[MachineChoice.HOST] = {'c': proj}
+        saved = (list(proj), list(glob_), list(ext))
+        comp = types.SimpleNamespace(get_language=lambda: 'c', environment=types.SimpleNamespace(coredata=types.SimpleNamespace(get_option_for_target=lambda t, k: ext)))
+        for i in range(2 + choose(2, 'targets')):
+            tgt = types.SimpleNamespace(build_project=bp, orig_for_machine=MachineChoice.HOST, for_machine=MachineChoice.HOST, name='t%d' % i)
+            got = Compiler.get_build_link_args(comp, tgt, bld)
+            exp = saved[0] + saved[1] + saved[2]
+            check(len(got) == len(exp), 'target %d: the link line gets project + global + option link arguments, each once' % i)
+            if len(got) == len(exp):
+                for g, e in zip(got, exp): check(eq(g, e), 'target %d: same strings in the same order' % i)
+        check(len(proj) == len(saved[0]) and len(glob_) == len(saved[1]) and len(ext) == len(saved[2]), 'the stored argument lists are not changed by assembling a command line')
+        cover('done')
+    return h
+
+
 def obligations(tier):
     out = []
     q = tier == 'quick'
@@ -507,4 +537,5 @@ def obligations(tier):
                               inputs='1-2', outputs='1-2'), labels=('substituted', 'rejected'), max_paths=5000000))
     for lens in ([1], [2], [1, 1]) if q else ([1], [2], [3], [1, 1], [2, 2]):
         out.append(Obligation('join-split%s' % lens, ob_joinsplit(lens), dict(arg_lengths=lens), labels=('done',), max_paths=3000000))
+    out.append(Obligation('link-arg-sources', ob_link_arg_sources(), dict(real='Compiler.get_build_link_args, Build.get_project_link_args / get_global_link_args', lists='0-2 symbolic 1-char strings each', targets='2-3 in sequence'), labels=('done',)))
     return out
